@@ -10,8 +10,8 @@ import Fbr.Lemmas.OvlSimLookup
 
 namespace Fbr.Ovl
 
-theorem importSt0_consistent (d : Disk) (hr : d.RootsOK) : Consistent (importSt0 d) := by
-  refine ⟨hr, ⟨{ reals := d.indices.map (rootReal d), whiteout := false, loaded := false, kids := [] }, by simp [importSt0]⟩, ?_, ?_, ?_, ?_, ?_, ?_⟩
+theorem importSt0_consistent (d : Disk) (hr : d.RootsOK) (ht : d.TreesOK) : Consistent (importSt0 d) := by
+  refine ⟨hr, ht, ⟨{ reals := d.indices.map (rootReal d), whiteout := false, loaded := false, kids := [] }, by simp [importSt0]⟩, ?_, ?_, ?_, ?_, ?_, ?_⟩
   · intro p m hm
     simp only [importSt0] at hm
     split at hm
@@ -74,9 +74,10 @@ theorem loadDirectory_cd (d : Disk) (p : Path) : Triple (CD d) (loadDirectory p)
           obtain ⟨_, rfl⟩ := h; exact ⟨hc, rfl⟩
 
 /-- `import` gives a consistent forest over the same disk -/
-theorem import_consistent (d : Disk) (hr : d.RootsOK) : Consistent (importFs d) ∧ (importFs d).disk = d := by
+theorem import_consistent (d : Disk) (hr : d.RootsOK) (ht : d.TreesOK) :
+    Consistent (importFs d) ∧ (importFs d).disk = d := by
   rw [importFs_eq]
-  exact (loadDirectory_cd d []).st (s := importSt0 d) ⟨importSt0_consistent d hr, rfl⟩
+  exact (loadDirectory_cd d []).st (s := importSt0 d) ⟨importSt0_consistent d hr ht, rfl⟩
 
 /-! ### read-only functions keep any predicate that loading keeps -/
 
@@ -292,28 +293,38 @@ theorem indices_setLayer0 {d : Disk} {L L' : Layer} (h : d.upper = some L) :
 def rootsSpec : InvSpec where
   φ r := r.inUpper = true → r.layer = 0
   ψ _ := True
-  D d := d.RootsOK
+  D d := d.RootsOK ∧ d.TreesOK
   child r c h hl hu := by intro hc; rw [hl]; exact h (hu ▸ hc)
   call _ _ _ _ := trivial
   disk r L L' d h hu hd hL hk := by
     have h0 : r.layer = 0 := h hu
     rw [h0] at hL ⊢
     have hup : d.upper = some L := hL
-    intro i hi
-    rw [indices_setLayer0 hup] at hi
-    cases i with
-    | zero =>
-      have := hd 0 hi
-      simp only [Disk.nodeAt, Disk.layer, hup] at this
-      simpa [Disk.nodeAt, Disk.layer, Disk.setLayer] using hk this
-    | succ j =>
-      have := hd (j + 1) hi
-      simpa [Disk.nodeAt, Disk.layer, Disk.setLayer] using this
+    refine ⟨?_, ?_⟩
+    · intro i hi
+      rw [indices_setLayer0 hup] at hi
+      cases i with
+      | zero =>
+        have := hd.1 0 hi
+        simp only [Disk.nodeAt, Disk.layer, hup] at this
+        simpa [Disk.nodeAt, Disk.layer, Disk.setLayer] using hk.1 this
+      | succ j =>
+        have := hd.1 (j + 1) hi
+        simpa [Disk.nodeAt, Disk.layer, Disk.setLayer] using this
+    · intro i Li hLi
+      cases i with
+      | zero =>
+        simp only [Disk.layer, Disk.setLayer, Option.some.injEq] at hLi
+        subst hLi
+        exact hk.2 (hd.2 0 L hL)
+      | succ j =>
+        exact hd.2 (j + 1) Li (by simpa [Disk.layer, Disk.setLayer] using hLi)
 
-/-- the layer roots are directories after every history -/
-theorem run_rootsOK (d : Disk) (hr : d.RootsOK) (ops : List Op) : (run (importFs d) ops).disk.RootsOK := by
+/-- the layers stay well-formed (roots are directories, every layer is a tree) after every history -/
+theorem run_wf (d : Disk) (hr : d.RootsOK) (ht : d.TreesOK) (ops : List Op) :
+    (run (importFs d) ops).disk.RootsOK ∧ (run (importFs d) ops).disk.TreesOK := by
   have h0 : GInv rootsSpec (importFs d) := by
-    refine import_inv _ d (fun i _ => ?_) hr
+    refine import_inv _ d (fun i _ => ?_) ⟨hr, ht⟩
     intro h
     simpa [rootReal] using h
   exact (run_inv (I := rootsSpec) ops _ h0).2.2
